@@ -81,5 +81,10 @@ example : endModesOK = [.err "no_validator", .err "unknown_asset", .err "no_dele
     .err "insufficient_shares", .err "invalid_shares", .err "not_enough_shares", .panic "staking_negative_tokens"] := rfl
 example : endModes = .err "invalid_duration" :: .panic "int_div_zero" :: endModesOK := rfl
 
+/-- the payout phase of the end blocker cannot fail where custody covers the pending unbondings (C01) and no pending
+    balance is negative (every history): `insufficient_funds` of `CompleteUnbondings` is excluded there -/
+theorem payout_phase_never_fails (w : World) (hs : QSorted w) (hn : NonnegQ w) (hu : UsersOnly w) (hc : Cover w) :
+    ∃ w', completeUnbondings w = (.ok (), w') := completeUnbondings_ok w hs hn hu hc
+
 end C17
 end Alliance
